@@ -207,12 +207,18 @@ prop('C15', level='other',
                  'contracts). Not yet under contract: group functions, recompute_edges, limit_df, epoch_df, plotting functions - '
                  'these are covered by the bounded purity job (call sequences sharing argument objects, deep comparison).')
 
-prop('C16', level='other', units=[F + 'burst.compute_amp_consistency', F + 'burst.compute_period_consistency',
-                                   'bycycle.burst.cycle.detect_bursts_cycles'],
+prop('C16', level='other',
+     units=[BU + 'recompute_edge', BU + 'recompute_edges', F + 'burst.compute_amp_consistency',
+            F + 'burst.compute_period_consistency', 'bycycle.burst.cycle.detect_bursts_cycles', BU + 'check_min_burst_cycles'],
      lemmas=['minrun_monotone'], jobs=['recompute_edges'],
-     explanation='Bounded so far for recompute_edges / recompute_edge themselves (synthetic tables: every is_burst pattern with '
-                 'False ends up to 6 (8) rows, both centrings; corpus tables). Deductive: the callees (one-sided consistency values, '
-                 're-thresholding) and the lemma that growing q keeps old labels.')
+     unit_jobs={BU + 'recompute_edge': ['recompute_edges'], BU + 'recompute_edges': ['recompute_edges']},
+     explanation='Proved: recompute_edge replaces exactly the two consistency cells of the given row by the one-sided C05 values '
+                 'computed on its three-row window (NaN at the table ends), writes them INTO the table (the copy-on-write chained '
+                 'assignment of the pinned tree fails this obligation), and changes nothing else; recompute_edges returns a new '
+                 'table, leaves the input table and the thresholds untouched (frame obligations), keeps every column other than the '
+                 'two consistencies and is_burst, and labels by the threshold-and-run rule applied to the edited table; growing q keeps '
+                 'old labels (lemma minrun_monotone). Bounded only: WHICH rows are edited (the cycles immediately outside each burst, '
+                 'direction looking into the burst) - synthetic tables with every is_burst pattern up to 6 (8) rows and corpus tables.')
 
 prop('C17', level='other', units=[], jobs=['phase'],
      explanation='Bounded: every alternating peak/trough placement (gaps >= 2) on arrays up to length 9 (12) with and without '
